@@ -30,21 +30,26 @@ TECHNIQUE = "tip-relationship table driven through the real pull/push/tip-moving
 LEVEL_TEXT = ("every generated (DAG, target tip, source tip, requested revision, operation, overwrite, bound, append-only) combination is executed on real "
               "branches re-opened with fresh objects; outcome (tip, revno, exception class) compared with the model")
 RULE = ("case = random history (<= 9 quick / <= 16 thorough revisions, <= 3 branches, merges, ghosts, 25% with a ghost on a mainline) x K evaluations, each = "
-        "relation class x (pull|push) x stop_revision? x overwrite? x bound? x transport, or an append-only evaluation x tip-moving API; "
+        "relation class x (pull|push, API or brz command) x stop_revision? x overwrite form (False|True|[history]|[tags]|[history,tags]|set forms|empty) x bound? x transport, or an append-only evaluation x tip-moving API; "
         "non-trivial = target and requested revision both non-null and different; distinct = (format, op, flags, relation class, shapes of the two left-hand histories)")
 CASES = {"quick": 32, "thorough": 640}
 BUDGET_S = {"quick": 45, "thorough": 780}
 MIN_EVALS = {"quick": 40, "thorough": 1500}
-FLOORS = {"quick": {"tip_oracle": 25, "revno_oracle": 30, "diverged_expected": 2, "append_only": 8, "append_only_to_null": 1, "bound_master_ahead": 1},
-          "thorough": {"tip_oracle": 1200, "revno_oracle": 1200, "diverged_expected": 100, "append_only": 250, "smart_ops": 100, "git_ops": 40, "append_only_to_null": 30, "bound_master_ahead": 40}}
+FLOORS = {"quick": {"tip_oracle": 25, "revno_oracle": 30, "diverged_expected": 2, "append_only": 8, "append_only_to_null": 1, "bound_master_ahead": 1, "tags_only_overwrite": 4, "cmd_ops": 2},
+          "thorough": {"tip_oracle": 1200, "revno_oracle": 1200, "diverged_expected": 100, "append_only": 250, "smart_ops": 100, "git_ops": 40, "append_only_to_null": 30, "bound_master_ahead": 40, "tags_only_overwrite": 200, "tags_only_overwrite_diverged": 20, "cmd_ops": 100}}
 ASSUMPTIONS = [
     "the requested revision is the stop_revision if given, else the source branch tip",
-    "with overwrite the documented behaviour 'always set the branch pointer' is demanded (tip == requested revision)",
+    "with a history overwrite (True, or a collection naming 'history') the documented behaviour 'always set the branch pointer' is demanded (tip == requested revision); a tags-only or empty overwrite collection is judged exactly like overwrite=False",
     "when the left-hand history of a tip runs into a ghost no revno is defined: GhostRevisionsHaveNoRevno is classified (tip must stay), a stored revno is not judged",
     "append-only: spurious refusals (AppendRevisionsOnlyViolation although the old tip is on the new left-hand history) are only counted; the statement forbids wrong acceptances",
     "a bound target is prepared in step with its master or behind it (its tip an ancestor of the master's, an out-of-date heavy checkout); both are judged, each by its own relation to the request, and a refused operation must leave both unchanged; when the bound target is addressed through bzr:// its master is not judged (RemoteBranch is never bound)",
     "git<->git pairs (thorough) use a small private generator (fork, merge) because generated revision ids cannot be chosen for git commits",
 ]
+
+OW_FORMS = [("True", True, True), ("[history]", ["history"], True), ("[tags]", ["tags"], False), ("[tags]", ["tags"], False),
+            ("[history,tags]", ["history", "tags"], True), ("{tags}", {"tags"}, False), ("{history}", {"history"}, True),
+            ("{history,tags}", {"history", "tags"}, True), ("[]", [], False), ("set()", set(), False)]
+CMD_FLAGS = {"False": [], "True": ["--overwrite"], "[history,tags]": ["--overwrite"], "[tags]": ["--overwrite-tags"], "{tags}": ["--overwrite-tags"]}
 
 CLASSES = ["equal", "mainline-ancestor", "merged-ancestor", "descendant", "diverged", "empty-target", "random", "random"]
 
@@ -164,6 +169,14 @@ def eval_pullpush(ctx, env, rng):
     g = env.g
     quick = ctx.tier == "quick"
     cls = rng.choice(CLASSES)
+    # the overwrite argument in all its forms; only True or a collection naming 'history' licenses moving a diverged tip,
+    # a tags-only overwrite (what --overwrite-tags sends) must behave like no overwrite for the revision history
+    if rng.random() < 0.3:
+        ow_name, ow_arg, overwrite = "False", False, False
+    else:
+        ow_name, ow_arg, overwrite = rng.choice(OW_FORMS)
+    if ow_name in ("[tags]", "{tags}") and rng.random() < 0.5:
+        cls = rng.choice(["diverged", "diverged", "descendant"])   # where a history overwrite would show
     bound = rng.random() < 0.3 and env.fmt != "git"
     if bound and rng.random() < 0.5:
         # an out-of-date checkout whose own tip can still fast-forward to the request (its master may not)
@@ -180,10 +193,10 @@ def eval_pullpush(ctx, env, rng):
         desc = [r for r in env.revs if req in g.ancestry(r)]
         s = rng.choice(desc)
     op = rng.choice(["pull", "push"])
-    overwrite = rng.random() < 0.3
     transport = "local"
     if not quick and env.fmt != "git" and rng.random() < 0.3:
         transport = rng.choice(["bzr-target", "bzr-source"])
+    via_cmd = transport == "local" and env.fmt != "git" and ow_name in CMD_FLAGS and rng.random() < 0.3
     env.n += 1
     root = ctx.tmp("c21")
     T = env.branch_at(root, "T", t)
@@ -204,7 +217,8 @@ def eval_pullpush(ctx, env, rng):
         Branch.open(T).bind(Branch.open(M))
     rel = g.relation(t, req)
     rc = _relation_class(g, t, req)
-    label = "%s/%s%s%s%s/%s/%s" % (env.fmt, op, "+stop" if use_stop else "", "+overwrite" if overwrite else "",
+    label = "%s/%s%s%s%s%s/%s/%s" % (env.fmt, "cmd-" + op if via_cmd else op, "+stop" if use_stop else "", "+overwrite=%s" % ow_name if ow_name != "False" else "",
+                                    "(history)" if overwrite else "",
                                   ("+bound" + ("(master ahead, %s)" % g.relation(m, req) if m != t else "")) if bound else "", rc, transport)
     d = {"case": label, "t": t.decode(), "s": s.decode(), "req": req.decode(), "m": m.decode(), "parents": {k.decode(): [p.decode() for p in v] for k, v in g.pm.items()}}
     ctx.info = {"label": label, "t": t.decode(), "s": s.decode(), "req": req.decode(), "log": env.hist.log[-30:] if env.hist else None}
@@ -214,12 +228,22 @@ def eval_pullpush(ctx, env, rng):
     exc = None
 
     def run(turl, surl):
+        if via_cmd:
+            # the command line: brz pull -d T S / brz push -d S T  [--overwrite | --overwrite-tags] [-r revid:X]
+            from breezy import commands
+
+            commands.install_bzr_command_hooks()
+            ctx.count("cmd_ops")
+            argv = ["pull", "-d", turl, surl] if op == "pull" else ["push", "-d", surl, turl]
+            argv += CMD_FLAGS[ow_name] + (["-r", "revid:" + stop.decode()] if stop is not None else [])
+            commands.run_bzr(argv)
+            return
         tb, sb = Branch.open(turl), Branch.open(surl)
         try:
             if op == "pull":
-                tb.pull(sb, stop_revision=stop, overwrite=overwrite)
+                tb.pull(sb, stop_revision=stop, overwrite=ow_arg)
             else:
-                sb.push(tb, stop_revision=stop, overwrite=overwrite)
+                sb.push(tb, stop_revision=stop, overwrite=ow_arg)
         finally:
             L.disconnect(tb, sb)
 
@@ -237,6 +261,11 @@ def eval_pullpush(ctx, env, rng):
                     run(T, rel_url(S))
     except errors.DivergedBranches as e:
         exc = "DivergedBranches"
+    except errors.CommandError as e:
+        # brz push reports divergence as a CommandError
+        if not (via_cmd and "diverged" in str(e)):
+            raise
+        exc = "DivergedBranches"
     except errors.GhostRevisionsHaveNoRevno as e:
         exc = "GhostRevisionsHaveNoRevno"
     except errors.LockContention as e:
@@ -248,6 +277,11 @@ def eval_pullpush(ctx, env, rng):
             return
         raise
     ctx.hist("op:%s%s%s%s" % (op, "+stop" if use_stop else "", "+overwrite" if overwrite else "", "+bound" if bound else ""))
+    ctx.hist("overwrite-form:%s%s" % (ow_name, ":cmd" if via_cmd else ""))
+    if ow_name in ("[tags]", "{tags}"):
+        ctx.count("tags_only_overwrite")
+        if not overwrite and "diverged" in (g.relation(t, req), g.relation(m, req)):
+            ctx.count("tags_only_overwrite_diverged")
     ctx.hist("relation:" + rc)
     ctx.hist("outcome:%s:%s" % (rc if not overwrite else "overwrite", exc or "ok"))
     judged = [("target", T, before_T, t)]
@@ -308,8 +342,8 @@ def eval_pullpush(ctx, env, rng):
         _check_revno(ctx, g, path, what, label, d)
     ctx.count("source_untouched")
     ctx.check(_info(S) == before_S, "source-branch-changed", "%s: %r -> %r" % (label, before_S, _info(S)), d)
-    ctx.distinct("table", (op, use_stop, overwrite, bound, rc, exc))
-    ctx.note((env.fmt, op, use_stop, overwrite, bound, transport, rc, _shape(g, t), _shape(g, req)),
+    ctx.distinct("table", (op, use_stop, ow_name, bound, rc, exc))
+    ctx.note((env.fmt, op, via_cmd, use_stop, ow_name, bound, transport, rc, _shape(g, t), _shape(g, req)),
              nontrivial=t != L.NULL and t != req,
              sample={"case": label, "target_tip": t.decode(), "source_tip": s.decode(), "requested": req.decode(), "outcome": exc or "ok",
                      "after": [_info(T)[0], _info(T)[1].decode()]})
